@@ -161,9 +161,8 @@ def run(ctx):
     wide = gen_big(ctx, "d1")
     for part in ("d2l", "d2r", "d2n"):
         cs = gen_big(ctx, part)
-        if quick:
-            rng.shuffle(cs)
-            cs = cs[:400]
+        rng.shuffle(cs)
+        cs = cs[:400] if quick else cs[:6000]
         wide += cs
     nwide = 0
     for i in range(0, len(wide), 12):
